@@ -21,7 +21,9 @@ type SpecCtx struct {
 	RTypes   []types.Type
 	RNames   []string
 	UseLocals bool // resolve plain names to the current value of the local of that name (loop invariants)
+	UseLocalsInOld bool
 	ParamsFirst bool // postconditions: parameter names mean entry values; other names fall back to locals
+	LoopSnap map[string]string // heap at the entry of the loop whose invariant is being evaluated
 	AtCallSite bool // evaluating a callee's contract in a caller: trace functions speak about the callee's own path
 	Frame    *Frame
 	Bound    map[string]*SV
@@ -205,7 +207,7 @@ func (e *Engine) evalIdent(s *State, c *SpecCtx, name string) *SV {
 			return e.svOf(v, c.PTypes[name])
 		}
 	}
-	if c.UseLocals && c.Frame != nil && !c.InOld {
+	if c.UseLocals && c.Frame != nil && (!c.InOld || c.UseLocalsInOld) {
 		if sv := e.localByName(s, c, name); sv != nil {
 			return sv
 		}
@@ -507,6 +509,17 @@ func (e *Engine) evalCall(s *State, c *SpecCtx, n *ast.CallExpr) *SV {
 		c2 := *c
 		c2.InOld = true
 		return e.eval(s, &c2, n.Args[0])
+	case "loopentry":
+		// value of the expression in the heap as it was when the loop was entered (locals: current)
+		if c.LoopSnap == nil {
+			e.unsupportedf("loopentry() outside a loop invariant")
+		}
+		c2 := *c
+		c2.InOld = true
+		c2.OldHeap = c.LoopSnap
+		c2.OldEpoch = true
+		c2.UseLocalsInOld = true
+		return e.eval(s, &c2, n.Args[0])
 	case "len":
 		a := arg(0)
 		if a.T != nil {
@@ -537,6 +550,13 @@ func (e *Engine) evalCall(s *State, c *SpecCtx, n *ast.CallExpr) *SV {
 		md, _, ks := e.mapNames(mt)
 		h := e.specHeap(s, c, md, "(Array Int (Array "+ks+" Bool))")
 		return &SV{V: &Val{L: []string{app("select", h, m.V.L[0])}}, Sort: "(Array " + ks + " Bool)"}
+	case "vals":
+		m := arg(0)
+		mt := m.T.Underlying().(*types.Map)
+		_, _, ks := e.mapNames(mt)
+		lf := e.leaves(mt.Elem())[0]
+		h := e.specHeap(s, c, e.mapValName(mt, lf.Path), "(Array Int (Array "+ks+" "+lf.Sort+"))")
+		return &SV{V: &Val{L: []string{app("select", h, m.V.L[0])}}, Sort: "(Array " + ks + " " + lf.Sort + ")"}
 	case "forall", "exists":
 		// forall(i, lo, hi, body)
 		id := n.Args[0].(*ast.Ident).Name
@@ -653,6 +673,37 @@ func (e *Engine) evalCall(s *State, c *SpecCtx, n *ast.CallExpr) *SV {
 		key := "F!" + structKey(deref(o.T)) + "!." + name + "@" + o.V.L[0]
 		_, ok := s.Held[key]
 		return svBool(fmt.Sprint(ok))
+	}
+	if fd, ok := e.C.Folds[fname]; ok {
+		m := arg(0)
+		mt, isMap := m.T.Underlying().(*types.Map)
+		if !isMap {
+			e.unsupportedf("fold %s applied to a non-map", fname)
+		}
+		md, _, ks := e.mapNames(mt)
+		lf := e.leaves(mt.Elem())[0]
+		hd := e.specHeap(s, c, md, "(Array Int (Array "+ks+" Bool))")
+		hv := e.specHeap(s, c, e.mapValName(mt, lf.Path), "(Array Int (Array "+ks+" "+lf.Sort+"))")
+		set := app("ite", eq(m.V.L[0], "0"), "((as const (Array "+ks+" Bool)) false)", app("select", hd, m.V.L[0]))
+		if len(n.Args) > 1 {
+			set = arg(1).V.L[0]
+		}
+		ft := app(e.foldSym(fd, mt), set, app("select", hv, m.V.L[0]))
+		s.assume(app(">=", ft, "0")) // a finite sum of non-negative weights
+		return svInt(ft)
+	}
+	if fname == "visited" {
+		m := arg(0)
+		var best *iterState
+		for _, it := range s.Iters {
+			if it.MT != nil && it.Map.L[0] == m.V.L[0] {
+				best = it
+			}
+		}
+		if best == nil {
+			e.unsupportedf("visited(): no active range over that map")
+		}
+		return &SV{V: &Val{L: []string{best.V}}, Sort: "set"}
 	}
 	if pd, ok := e.C.Preds[fname]; ok {
 		if len(pd.Params) != len(n.Args) {
